@@ -124,15 +124,17 @@ def P(pid, modules, runs, rule, level_text, assumptions, regen=None, trusted=Non
                       level_text=level_text, assumptions=assumptions, regen=regen or [], trusted_base=trusted or V2_TB, **kw)
 
 
-P("C01", ["LC.Props.C01"], [MATCH, v2run("TestVerifC01")],
+P("C01", ["LC.Props.C01", "LC.Props.C01Range"], [MATCH, v2run("TestVerifC01")],
   "every picked corpus document planted (verbatim) between out-of-vocabulary lines, 1-4 copies per input, thresholds "
   "0.8 (quick; +0.9 on even seeds) / 0.7,0.75,0.8,0.9,0.95,1.0 (thorough, all 431 documents), plus user-added synthetic "
   "documents; expected name/span/lines from the white-box tokenisation of the prefix, never from Match. distinct = "
   "(threshold, documents); non-trivial = at least one planted copy of >= q tokens was checked",
-  "PARTIAL proof: prefilter_contains, hashes_contains, score_exact(_conf) are proved for all documents/contexts; that "
-  "join/run/fuse propose exactly the planted range and that no other document dominates it in the overlap filter is NOT "
-  "proved — it is established by the oracle on the real Match over every corpus document (thorough) and tied to the model by "
-  "the `match` correspondence.",
+  "exact_range_proposed: for EVERY document D (>= q tokens) planted between contexts sharing no token with it, the q-gram join, "
+  "density window, range fusion and claimed-token cut of the model propose exactly source [0,|D|) -> target [|pre|,|pre|+|D|) "
+  "and never panic (under HashInj and scaleFloor n <= n); prefilter_contains, hashes_contains, score_exact(_conf): the "
+  "pre-filter cannot reject it and the score is distance 0, no trimming, confidence conf |D| 0 = 1.0. PARTIAL in one respect: "
+  "that no OTHER document's candidate displaces it in the overlap filter (NoDominator) is not proved (retain_unconflicted "
+  "covers the unconflicted case) and is established by the oracle on the real Match over every corpus document.",
   ["DiffSpec.equalInputs (go-diff returns one Equal segment for identical texts)", FLOAT,
    "NoDominator: no other corpus document approximately spans several planted copies (the oracle would show it)"], regen=ALLGEN)
 
